@@ -242,7 +242,10 @@ def floatenum_case(draw):
             ops.append({'op': kind})
         else:
             ops.append({'op': kind, 'i': draw(st.integers(0, 12))})
-    return {'kind': 'floatenum', 'labels': labels, 'unit': unit, 'ops': ops, 'with_write_idx': draw(st.sampled_from([False, True, 'coerce']))}
+    # a start value from the configuration, for the float or for the index (position among the allowed ones)
+    cfg = draw(st.sampled_from([None, None, 'float', 'idx']))
+    return {'kind': 'floatenum', 'labels': labels, 'unit': unit, 'ops': ops, 'with_write_idx': draw(st.sampled_from([False, True, 'coerce'])),
+            'cfg': cfg, 'cfg_pos': draw(st.integers(0, 5))}
 
 
 def check_floatenum(ctx, case):
@@ -269,12 +272,30 @@ def check_floatenum(ctx, case):
     except Exception as e:   # noqa
         ctx.finding(f'floatenum:class-creation:{type(e).__name__}', case, repr(e))
         return
-    kit = Kit({'f': {'cls': cls, 'description': 'float enum module'}})
+    modcfg = {'cls': cls, 'description': 'float enum module'}
+    cvd = dict(attrs['fr'].valuedict)
+    cidx = sorted(cvd)[case.get('cfg_pos', 0) % len(cvd)]
+    if case.get('cfg') == 'float':
+        modcfg['fr'] = {'value': cvd[cidx]}
+    elif case.get('cfg') == 'idx':
+        modcfg['fr_idx'] = {'value': cidx}
+    kit = Kit({'f': modcfg})
     if kit.errors:
-        ctx.finding('floatenum:node-refused', case, repr(kit.errors)[:300])
+        ctx.finding('floatenum:node-refused' + (':cfg-' + case['cfg'] if case.get('cfg') else ''), case, repr(kit.errors)[:300])
         return
     mobj = kit.modules['f']
     vdict = dict(mobj.parameters['fr'].valuedict)
+    if case.get('cfg'):
+        # the configured start value is one of the allowed ones: float and index agree from the start
+        idx0 = int(mobj.fr_idx)
+        if idx0 in vdict and (mobj.fr != vdict[idx0] or rm.canon(mobj.parameters['fr'].value) != vdict[idx0]):
+            ctx.finding(f'floatenum:float-differs-from-index:cfg-{case["cfg"]}', dict(case, ops=[]),
+                        f'index {idx0} -> {vdict[idx0]}, float attribute {mobj.fr}, cached {mobj.parameters["fr"].value}')
+            return
+        if case['cfg'] == 'idx' and idx0 != cidx:
+            ctx.finding('floatenum:configured-index-ignored', dict(case, ops=[]), f'configured {cidx}, index {idx0}')
+            return
+        ctx.ok('configured-start-value')
     lo, hi = min(vdict.values()), max(vdict.values())
     # the values belonging to the labels: '<number><SI prefix><unit>' unless a value is given explicitly
     want = []
